@@ -1,5 +1,4 @@
-(* C18 — order facts: byte-string order is a strict total order; the directory-entry comparison of the
-   sorted walk is the byte order of the slash-joined paths; insertion sort sorts. *)
+(* C18 — order facts: byte-string order is a strict total order; insertion sort sorts. *)
 From Coq Require Import List Sorted Permutation Lia ZArith Bool.
 From GixV.Base Require Import Bytes BytesFacts Outcome.
 From GixV.C18 Require Import Validate Model.
@@ -38,74 +37,6 @@ Qed.
 
 Lemma bytes_cmp_app_prefix p : forall a b, bytes_cmp (p ++ a) (p ++ b) = bytes_cmp a b.
 Proof. induction p as [|x p IH]; intros; cbn [app bytes_cmp]; auto. rewrite N.compare_refl. apply IH. Qed.
-
-(* ---- entries of one directory ---------------------------------------------------------- *)
-
-Definition noslash (c : bytes) : bool := forallb (fun b => negb (beqb b slash)) c.
-Definition comp_wf (c : bytes) : bool := negb (is_nil c) && noslash c.
-
-Lemma cmp_slash_other c : beqb c slash = false ->
-  N.compare (b2N slash) (b2N c) <> Eq /\ N.compare (b2N c) (b2N slash) <> Eq.
-Proof.
-  intros H. split; intros E; apply N.compare_eq_iff in E; apply b2N_inj in E; subst;
-  assert (T : beqb slash slash = true) by (apply beqb_eq; reflexivity); congruence.
-Qed.
-
-(* comparing two names of one directory decides the order of everything below them *)
-Lemma entry_cmp_ext : forall x y dx dy rx ry,
-  noslash x = true -> noslash y = true -> x <> y ->
-  (dx = false -> rx = []) -> (dy = false -> ry = []) ->
-  bytes_cmp (x ++ (if dx then slash :: rx else [])) (y ++ (if dy then slash :: ry else []))
-  = cmp_entry_names x dx y dy.
-Proof.
-  induction x as [|a x IH]; intros [|b y] dx dy rx ry Hx Hy Hne Hrx Hry.
-  - congruence.
-  - cbn [app cmp_entry_names]. cbn in Hy. apply andb_true_iff in Hy. destruct Hy as [Hb _].
-    apply negb_true_iff in Hb. destruct (cmp_slash_other b Hb) as [N1 _].
-    destruct dx; cbn [cmp_opt_byte bytes_cmp].
-    + destruct (N.compare (b2N slash) (b2N b)); congruence.
-    + reflexivity.
-  - cbn [app cmp_entry_names]. cbn in Hx. apply andb_true_iff in Hx. destruct Hx as [Ha _].
-    apply negb_true_iff in Ha. destruct (cmp_slash_other a Ha) as [_ N2].
-    destruct dy; cbn [cmp_opt_byte bytes_cmp].
-    + destruct (N.compare (b2N a) (b2N slash)); congruence.
-    + reflexivity.
-  - cbn [app cmp_entry_names bytes_cmp]. cbn in Hx, Hy.
-    apply andb_true_iff in Hx. destruct Hx as [_ Hx]. apply andb_true_iff in Hy. destruct Hy as [_ Hy].
-    destruct (N.compare (b2N a) (b2N b)) eqn:E; try reflexivity.
-    apply N.compare_eq_iff in E. apply b2N_inj in E. subst b.
-    apply IH; auto. congruence.
-Qed.
-
-Lemma join_cons x xs : join (x :: xs) = x ++ (if negb (is_nil xs) then slash :: join xs else []).
-Proof. destruct xs; cbn [join is_nil negb]; [rewrite app_nil_r|]; reflexivity. Qed.
-
-(* the traversal order of two files is the byte order of their slash-joined paths *)
-Lemma path_cmp_join : forall xs ys, forallb comp_wf xs = true -> forallb comp_wf ys = true ->
-  path_cmp xs ys = bytes_cmp (join xs) (join ys).
-Proof.
-  induction xs as [|x xs IH]; intros [|y ys] Hx Hy.
-  - reflexivity.
-  - cbn [path_cmp]. rewrite join_cons. cbn in Hy. apply andb_true_iff in Hy. destruct Hy as [Hy _].
-    unfold comp_wf in Hy. apply andb_true_iff in Hy. destruct Hy as [Hy _].
-    destruct y; [discriminate|]. reflexivity.
-  - cbn [path_cmp]. rewrite join_cons. cbn in Hx. apply andb_true_iff in Hx. destruct Hx as [Hx _].
-    unfold comp_wf in Hx. apply andb_true_iff in Hx. destruct Hx as [Hx _].
-    destruct x; [discriminate|]. reflexivity.
-  - cbn [path_cmp]. cbn [forallb] in Hx, Hy.
-    apply andb_true_iff in Hx. destruct Hx as [Hx Hxs]. apply andb_true_iff in Hy. destruct Hy as [Hy Hys].
-    rewrite !join_cons. destruct (bytes_eqb x y) eqn:E.
-    + apply bytes_eqb_eq in E. subst y. rewrite bytes_cmp_app_prefix.
-      destruct xs as [|x' xs'], ys as [|y' ys']; try reflexivity.
-      cbn [is_nil negb bytes_cmp]. rewrite N.compare_refl. apply IH; assumption.
-    + symmetry. unfold comp_wf in Hx, Hy.
-      apply andb_true_iff in Hx. destruct Hx as [_ Hx]. apply andb_true_iff in Hy. destruct Hy as [_ Hy].
-      apply entry_cmp_ext; auto.
-      * intros Heq. subst y.
-        assert (T : bytes_eqb x x = true) by (apply bytes_eqb_eq; reflexivity). congruence.
-      * destruct xs; cbn; [reflexivity|discriminate].
-      * destruct ys; cbn; [reflexivity|discriminate].
-Qed.
 
 (* ---- insertion sort ---------------------------------------------------------------------- *)
 
